@@ -30,7 +30,7 @@ func arrivals(r *ev.Run) {
 				}
 				rec := map[string]any{"no_upstream": noUp, "keyid_kind": kind, "operations": order}
 				r.Eval(1)
-				r.Guard(c, "certificates arriving between listings", rec, func() {
+				if _, hung := r.GuardWithin(c, "certificates arriving between listings", rec, ev.CaseBudget(), func() {
 					ag := wire.New()
 					defer ag.Close()
 					sock, err := ag.Listen()
@@ -128,7 +128,10 @@ func arrivals(r *ev.Run) {
 					}
 					r.Count("operations while YSSHCA certificates keep arriving in the underlying agent", len(order))
 					r.Nontrivial(fmt.Sprintf("arrivals:%v:%s:%v", noUp, kind, order))
-				})
+				}); hung {
+					r.Unfinished("certificates arriving between listings")
+					return
+				}
 			}
 		}
 	}
